@@ -112,6 +112,8 @@ class Summ:
         known_in = {over} | {l for k, l in facts if k == "in"}
         if over == "T":
             known_in.add("S")               # precondition of every generator: operand list ⊆ storage list
+        if self.fn.name.startswith("reorder"):
+            known_in |= {"S", "T"}          # precondition of the reorder generators: a permutation of the storage list
         app = []
         for (ev_over, ev_facts, e) in events:
             dom_ok = ev_over in known_in and all((k, l) in facts or (k == "in" and l in known_in) for k, l in ev_facts)
